@@ -41,7 +41,7 @@ def _shard(name, shard, nshards, tier, seed):
     import pytenet as ptn
     c = Corr(name)
     rng = np.random.default_rng([seed, shard, 3, sum(map(ord, name))])
-    n = (320 if tier == 'quick' else 3200) // nshards + 1
+    n = (320 if tier == 'quick' else 16000) // nshards + 1
     ops, impls, sigs = [], [], []
 
     def push(op, f, sig):
